@@ -15,7 +15,7 @@ var harnessIntrinsics = map[string]bool{
 	"vAssume": true, "vAssert": true, "vCheck": true, "vCover": true, "vKnown": true, "vParam": true, "vWant": true,
 	"vHash": true, "vUF": true, "vBytesOf": true, "vU64Of": true, "vMaybe": true, "vMaybeHV": true,
 	"vTime": true, "vZeroTime": true, "vNs": true, "vSymLen": true, "vNote": true, "vCut": true,
-	"vIsSymbolic": true, "vMaybeRec": true,
+	"vIsSymbolic": true, "vSubFail": true, "vMaybeRec": true, "vMaybeBlock": true, "vMaybePre": true, "vTimeZ": true,
 }
 
 func (x *Exec) newInput(st *State, tag string, w int) *Term {
@@ -167,6 +167,7 @@ func (x *Exec) harnessIntrinsic(st *State, name string, args []Value) Value {
 		c := args[1].(*Term)
 		a := x.assertStat(id)
 		a.Checked++
+		x.qlabel = "assert " + id
 		if c.isTrue() {
 			a.Trivial++
 			return nil
@@ -203,9 +204,17 @@ func (x *Exec) harnessIntrinsic(st *State, name string, args []Value) Value {
 		}
 		return nil
 	case "vCover":
-		x.res.Covers[args[0].(StringV).s]++
+		id := args[0].(StringV).s
+		if x.eager(st) {
+			// arms of eager predicates are not checked for feasibility: ask, once per witness
+			if x.res.Covers[id] > 0 || x.check(st.pc, nil) == "sat" {
+				x.res.Covers[id]++
+			}
+			return nil
+		}
+		x.res.Covers[id]++
 		return nil
-	case "vNote":
+	case "vNote", "vSubFail":
 		return nil
 	case "vCut":
 		st.cut = true
@@ -222,9 +231,11 @@ func (x *Exec) harnessIntrinsic(st *State, name string, args []Value) Value {
 		if len(x.want) == 0 {
 			return x.mkBool(true)
 		}
-		for _, w := range x.want {
-			if strings.HasPrefix(p, w) || strings.HasPrefix(w, p) {
-				return x.mkBool(true)
+		for _, q := range strings.Split(p, ",") {
+			for _, w := range x.want {
+				if strings.HasPrefix(q, w) || strings.HasPrefix(w, q) {
+					return x.mkBool(true)
+				}
 			}
 		}
 		return x.mkBool(false)
@@ -291,13 +302,15 @@ func (x *Exec) harnessIntrinsic(st *State, name string, args []Value) Value {
 		}
 		return acc
 	case "vMaybeHV":
-		pv := args[1].(PtrV)
+		pv := x.resolvePtr(st, args[1].(PtrV), "vMaybeHV of nil")
 		return PtrV{obj: pv.obj, path: pv.path, nonnil: x.newInput(st, tagOf(args, "present"), 0)}
-	case "vMaybe", "vMaybeRec":
+	case "vMaybe", "vMaybeRec", "vMaybeBlock", "vMaybePre":
 		iv := args[1].(IfaceV)
 		return IfaceV{typ: iv.typ, val: iv.val, nonnil: x.newInput(st, tagOf(args, "present"), 0)}
 	case "vTime":
 		return TimeV{args[0].(*Term), x.mkBool(false)}
+	case "vTimeZ":
+		return TimeV{args[1].(*Term), args[0].(*Term)}
 	case "vZeroTime":
 		return TimeV{x.mkConst(64, zeroTimeNS), x.mkBool(true)}
 	case "vNs":
@@ -316,6 +329,7 @@ func (x *Exec) chanSend(st *State, i *ssa.Send) {
 	if p.obj < 0 {
 		panic(execPanic{"send on nil channel (blocks forever)"})
 	}
+	p = x.resolvePtr(st, p, "send on nil channel")
 	cd := st.heap[p.obj].(ChanData)
 	if len(cd.q) >= cd.capacity {
 		panic(execPanic{"send on full channel (blocks forever: single goroutine)"})
@@ -328,6 +342,7 @@ func (x *Exec) chanRecv(st *State, p PtrV, commaOk bool) Value {
 	if p.obj < 0 {
 		panic(execPanic{"receive from nil channel (blocks forever)"})
 	}
+	p = x.resolvePtr(st, p, "receive from nil channel")
 	cd := st.heap[p.obj].(ChanData)
 	if len(cd.q) == 0 {
 		panic(execPanic{"receive from empty channel (blocks forever: single goroutine)"})
